@@ -8,7 +8,8 @@ pid, name = sys.argv[1], sys.argv[2]
 mod = importlib.import_module("harness.props." + pid.lower())
 tier = sys.argv[3] if len(sys.argv) > 3 else "quick"
 sc = [s for s in mod.scenarios(tier, int(os.environ.get("VERIF_SEED", "0"))) if s["name"].startswith(name)][0]
-w = "/verif/.work/one_" + pid; os.makedirs(w, exist_ok=True)
+w = "/verif/.work/one_%s_%d" % (pid, os.getpid()); os.makedirs(w, exist_ok=True)
 r = mod.execute(sc, w)
 print(sc["name"], "bad:", r["bad"][:8], len(r["bad"]))
 print(json.dumps(r["sample"].get("info"))[:600], r["stats"])
+import shutil; shutil.rmtree(w, ignore_errors=True)
